@@ -7,6 +7,7 @@ from ..rules import errignored
 from ..rules import minmax
 from ..rules import findend
 from ..rules import maxmin
+from ..rules import rangewire
 
 
 def tu_check(tu):
@@ -18,16 +19,18 @@ def tu_check(tu):
     ei = errignored.analyse_tu(tu)
     fe = findend.c_check(tu)
     mx = maxmin.c_check(tu)
-    bn["findings"] = bn["findings"] + ei["findings"] + fe["findings"] + mx["findings"]
+    rw = rangewire.c_check(tu)
+    bn["findings"] = bn["findings"] + ei["findings"] + fe["findings"] + mx["findings"] + rw["findings"]
+    bn["rw"] = rw["n"]
     bn["fe"] = fe["n"]
     bn["mx"] = mx["n"]
     bn["ei"] = ei["stats"]["error_result_sites"]
-    return dict(mx=bn["mx"], fe=bn["fe"], ei=bn["ei"], cross={repr(k): v for k, v in cross.items()}, unb={repr(k): v for k, v in unb.items()}, range={repr(k): v for k, v in t.items()}, seek=sa, findings=bn["findings"], bn=bn["n"])
+    return dict(rw=bn["rw"], mx=bn["mx"], fe=bn["fe"], ei=bn["ei"], cross={repr(k): v for k, v in cross.items()}, unb={repr(k): v for k, v in unb.items()}, range={repr(k): v for k, v in t.items()}, seek=sa, findings=bn["findings"], bn=bn["n"])
 
 
 def run(tier="quick", seed=0, use_cache=True):
     res = engine.Result("C02")
-    res.rules = ["RANGE-TABLE", "BOUND-NORM", "SEEK-ALGEBRA", "ITER-CONTINUE", "TREE-EXCLUDE", "UNBOUNDED-END", "RANGE-SHAPE", "ENDS-CROSS", "ERR-IGNORED", "MINMAX-TABLE", "FINDEND-TABLE"]
+    res.rules = ["RANGE-TABLE", "BOUND-NORM", "SEEK-ALGEBRA", "ITER-CONTINUE", "TREE-EXCLUDE", "UNBOUNDED-END", "RANGE-SHAPE", "ENDS-CROSS", "ERR-IGNORED", "MINMAX-TABLE", "FINDEND-TABLE", "RANGE-WIRING"]
     res.exhaustive = True
     res.explanation = (
         "Leaf-level and cursor-level pieces of the range machinery, decided "
@@ -73,6 +76,13 @@ def run(tier="quick", seed=0, use_cache=True):
         "bound); the outcome - which key slot is returned, which child is "
         "asked, or ValueError - must equal the specification (a bound behind "
         "the last key of its leaf is answered by the next leaf's first key). "
+        "RANGE-WIRING: C BTree_rangeSearch with both bounds given is walked "
+        "with the four range arguments as roles (named after the parser's "
+        "keyword list): the low end is searched with (min, low=1, "
+        "excludemin), the high end with (max, low=0, excludemax), the "
+        "sequence is built from (LOW, LOW offset, HIGH, HIGH offset), a "
+        "search finding nothing gives the empty sequence, a failing one the "
+        "error. "
         "FINDEND-TABLE: C BTree_findRangeEnd, descent included, is walked by "
         "an abstract interpreter over node roles for every valuation of (one "
         "or two interior levels, child index 0 or not at each level, leaf "
@@ -191,6 +201,7 @@ def run(tier="quick", seed=0, use_cache=True):
     res.count("ERR-IGNORED", sum(r["ei"] for r in out.values()))
     res.count("FINDEND-TABLE", sum(r["fe"] for r in out.values()))
     res.count("C-MINMAX-TABLE", sum(r["mx"] for r in out.values()))
+    res.count("RANGE-WIRING", sum(r["rw"] for r in out.values()))
     res.floor("valuations of the tree-level endpoint search (OO)", out["OO"]["fe"], 72)
     res.samples = [{"c_range_table_OO": out["OO"]["range"]}, {"seek_effects_OO": out["OO"]["seek"]},
                    {"python_iter_table": {repr(k): v for k, v in it.items()}},
